@@ -340,7 +340,7 @@ BAD_VALUES_OUTSIDE = tuple(v for v in BAD_VALUES
 def _fault(draw: Any, n_out: int, max_time: float, allow_exp: bool,
            stiff_base: bool = False) -> dict:
     when = draw(st.sampled_from(
-        ["always", "after", "after", "norm", "norm"]
+        ["always", "after", "after", "norm", "norm", "window", "window"]
         + (["exp", "exp"] if allow_exp else [])))
     if when == "exp":
         return {"when": "exp", "p": draw(_f(0.5, 50.0)),
@@ -349,7 +349,12 @@ def _fault(draw: Any, n_out: int, max_time: float, allow_exp: bool,
     values = BAD_VALUES_OUTSIDE if stiff_base else BAD_VALUES
     f = {"when": when, "value": draw(st.sampled_from(values)),
          "index": draw(st.integers(-1, n_out - 1))}  # -1 = all entries
-    if when == "after":
+    if when == "window":
+        # out of range only during a short time window: the integrator may
+        # step over it while some of the equidistant result rows fall into it
+        f["p"] = draw(_f(0.05 * max_time, 0.95 * max_time))
+        f["w"] = draw(_f(0.01 * max_time, 0.12 * max_time))
+    elif when == "after":
         f["p"] = draw(st.one_of(_f(0.0, max_time), _f(0.0, 1.5 * max_time),
                                 st.just(0.0)))
     elif when == "norm":
@@ -558,6 +563,8 @@ def _fault_active(fault: dict, state: Any, t: float,
         return max(abs(float(v)) for v in control) > fault["p"]
     if when == "always":
         return True
+    if when == "window":
+        return fault["p"] < t < fault["p"] + fault["w"]
     if when == "after":
         return t > fault["p"]
     if when == "norm":
